@@ -1,4 +1,4 @@
-import Oracle.SpecTable
+import Oracle.SpecText
 
 def main : IO UInt32 :=
-  Oracle.run (Oracle.mkTable Gen.table) Oracle.specTable
+  Oracle.run (Oracle.mkTable Gen.table) Oracle.fullSpecTable
